@@ -112,14 +112,22 @@ class ClohessyWiltshire(AnalyticalPropagator):
             date = self.orbit.date + date
 
         orb = self.orbit
+        # Maneuvers dated at or before the epoch of the orbit are already
+        # part of its state (same convention as ImpulsiveMan.check)
+        epoch = orb.date
 
         # Maneuvers handling
         for man in self.orbit.maneuvers:
-            if isinstance(man, ImpulsiveMan) and date >= man.date:
+            if isinstance(man, ImpulsiveMan) and epoch < man.date <= date:
                 orb = self._propagate(man.date, orb)
                 orb[3:] += man.dv(orb)
-            elif isinstance(man, ContinuousMan) and date >= man.start:
-                orb = self._propagate(man.start, orb)
+            elif (
+                isinstance(man, ContinuousMan)
+                and date >= man.start
+                and epoch < man.stop
+            ):
+                if orb.date < man.start:
+                    orb = self._propagate(man.start, orb)
                 if man.check(date):
                     # If the date of propagation is during a continuous maneuver
                     return self._propagate(date, orb, man.accel(orb))
